@@ -175,6 +175,7 @@ def classify(ct, ff: FuncFacts, summ, late):
 def run(prog, rep):
     ct = Container(prog)
     cd = Codecs(prog)
+    cd.flag_errors(rep)
     mod = M.MOD(ct)
     rep.explanation = (
         "validate-before-effect: on the CFG of every mutator (calls to other mutators expanded through may-effect / "
